@@ -14,8 +14,9 @@ func releaseAllocatedIPs(ippool *IPPool, session *PFCPSession) error {
 	logger.PfcpLog.Infoln("release allocated IP")
 
 	// Check if we allocated an UE IP for this session and delete it.
+	// The address is allocated (by SEID) for any PDR that asks for it, whatever its source interface.
 	for _, pdr := range session.pdrs {
-		if (pdr.allocIPFlag) && (pdr.srcIface == core) {
+		if pdr.allocIPFlag {
 			ueIP := int2ip(pdr.ueAddress)
 			logger.PfcpLog.Debugf("Releasing IP %s of session %d", ueIP.String(), session.localSEID)
 			return ippool.DeallocIP(session.localSEID)
